@@ -208,7 +208,8 @@ def flushUntil (s : State) (me : Ptr) : State :=
 
 /-- what `await_suspend(me)` pushes behind the remaining handles: the awaiting coroutine, unless it is one of them -/
 def awaitExtra (s : State) (o : Obj) (me : Ptr) : List Ptr :=
-  if me ∈ handlesOf s { o with cf := o.cf - 2 } then [] else [me]
+  -- `me_included = out.address() == me_addr` (the popped handle), then `|=` over the remaining handles
+  if popValue s o = me ∨ me ∈ handlesOf s { o with cf := o.cf - 2 } then [] else [me]
 
 /-- `await_suspend(me)` with an active queue, up to the point where it returns `out` (the popped handle):
 pop, push the remaining handles and `me`, `clear_internal()`.  (ghost: `me` was handed to the queue) -/
@@ -223,8 +224,8 @@ def awaitObj (s : State) (i : Nat) (o : Obj) (me : Ptr) : State :=
   if o.cf / 2 = 0 then s                         -- await_ready(): no suspension
   else if s.active then
     -- symmetric transfer to the popped handle, then the scheduler runs the queue up to (the first entry of) `me`.
-    -- If the popped handle is `me` itself (own handle last: outside the contract) the transfer resumes `me` at once
-    -- and the scheduler does not run.
+    -- If the popped handle is `me` itself (own handle last) the transfer resumes `me` at once and the scheduler
+    -- does not run.
     if popValue s o = me then resumeAll (awaitQueue s i o me) [popValue s o]
     else flushUntil (resumeAll (awaitQueue s i o me) [popValue s o]) me
   else
@@ -434,8 +435,31 @@ def stepMergeSelfAsIs (s : State) (i : Nat) (o : Obj) : State :=
               else selfMergeLoopAsIs (o.cf % 2 == 1) i (o.cf / 2) 0 s)
         i (some { o1 with cf := 0 })
 
+/-- the unrepaired `await_suspend`: the guard against a double insert looked only at the handles that remain
+after `pop()`, not at the popped handle itself -/
+def awaitExtraAsIs (s : State) (o : Obj) (me : Ptr) : List Ptr :=
+  if me ∈ handlesOf s { o with cf := o.cf - 2 } then [] else [me]
+
+def awaitQueueAsIs (s : State) (i : Nat) (o : Obj) (me : Ptr) : State :=
+  clearInternal
+    (enqueue (setObj s i (some { o with cf := o.cf - 2 }))
+      (handlesOf s { o with cf := o.cf - 2 } ++ awaitExtraAsIs s o me))
+    i { o with cf := o.cf - 2 }
+
+def awaitObjAsIs (s : State) (i : Nat) (o : Obj) (me : Ptr) : State :=
+  if o.cf / 2 = 0 then s
+  else if s.active then
+    if popValue s o = me then resumeAll (awaitQueueAsIs s i o me) [popValue s o]
+    else flushUntil (resumeAll (awaitQueueAsIs s i o me) [popValue s o]) me
+  else
+    { flushAll (resumeAll (awaitQueueAsIs { s with active := true } i o me) [popValue s o]) with active := false }
+
 def stepAsIs (s : State) (op : Op) : State × Res :=
   match op with
+  | Op.await i me =>
+      match s.obj i with
+      | some o => (awaitObjAsIs s i o me, Res.unit)
+      | none => (s, Res.bad)
   | Op.merge i j | Op.assign i j =>
       if i = j then
         match s.obj i with
